@@ -92,6 +92,26 @@ impl MSpec {
                 let p = Arc::new(from_json_str::<PengRobinsonParameters>(&pj, &br));
                 ResidualModel::PengRobinson(PengRobinson::new(p))
             }
+            "GcPcSaft" => {
+                // heterosegmented group contribution: the records are substance names, assembled from the shipped segment tables in the order given
+                use feos_core::parameter::{BinaryRecord, ChemicalRecord, ParameterHetero, SegmentRecord};
+                let all: Vec<ChemicalRecord> = serde_json::from_str(&std::fs::read_to_string(crate::zoo::ppath("pcsaft/gc_substances.json")).unwrap()).unwrap();
+                let crs: Vec<ChemicalRecord> = self.records.iter().map(|r| {
+                    let name = r["name"].as_str().unwrap();
+                    all.iter().find(|c| c.identifier.name.as_deref() == Some(name)).unwrap_or_else(|| panic!("no gc substance {}", name)).clone()
+                }).collect();
+                let segs: Vec<SegmentRecord<feos::gc_pcsaft::GcPcSaftRecord>> = SegmentRecord::from_json(crate::zoo::ppath("pcsaft/sauer2014_hetero.json")).unwrap();
+                let bins: Vec<BinaryRecord<String, f64>> =
+                    serde_json::from_str(&std::fs::read_to_string(crate::zoo::ppath("pcsaft/rehner2023_hetero_binary.json")).unwrap()).unwrap();
+                let p = feos::gc_pcsaft::GcPcSaftEosParameters::from_segments(crs, segs, Some(bins)).expect("gc parameters");
+                ResidualModel::GcPcSaft(if self.opt == 0 {
+                    feos::gc_pcsaft::GcPcSaft::new(Arc::new(p))
+                } else {
+                    let mut o = feos::gc_pcsaft::GcPcSaftOptions::default();
+                    o.max_eta = 0.45;
+                    feos::gc_pcsaft::GcPcSaft::with_options(Arc::new(p), o)
+                })
+            }
             f => panic!("unknown family {}", f),
         }
     }
@@ -185,9 +205,16 @@ pub fn specs() -> Vec<MSpec> {
             binary: vec![((0, 1), json!({"k_ij": 0.01})), ((1, 2), json!({"k_ij": -0.02, "gamma_ij": 0.01}))], opt, tscale: 300.0 });
         // SAFT-VR Mie has its own association code: associating components behind and between non-associating ones
         v.push(MSpec { name: format!("saftvrmie/assoc4/opt{}", opt), family: "SaftVRMie", records: recs("saftvrmie/lafitte2013.json", &["hexane", "ethanol", "carbon dioxide", "1-butanol"]),
-            binary: vec![((0, 1), json!({"k_ij": 0.02})), ((1, 3), json!({"k_ij": -0.01}))], opt, tscale: 500.0 });
+            binary: vec![((0, 1), json!({"k_ij": 0.02})), ((1, 3), json!({"k_ij": -0.01, "rc_ab": 1.3, "epsilon_k_ab": 2600.0}))], opt, tscale: 500.0 });
         v.push(MSpec { name: format!("saftvrqmie/3c/opt{}", opt), family: "SaftVRQMie", records: recs("saftvrqmie/aasen2019.json", &["hydrogen", "neon", "helium"]),
             binary: vec![((0, 1), json!({"k_ij": 0.105, "l_ij": 0.0})), ((0, 2), json!({"k_ij": 0.08, "l_ij": -0.05}))], opt, tscale: 40.0 });
+        // heterosegmented gc-PC-SAFT: several dipolar molecules of different size (dipole pair and triplet terms over components), and an associating
+        // molecule behind non-associating ones
+        let gcn = |names: &[&str]| -> Vec<Value> { names.iter().map(|n| json!({"name": n})).collect() };
+        v.push(MSpec { name: format!("gcpcsaft/dipolar4/opt{}", opt), family: "GcPcSaft", records: gcn(&["acetone", "n-butyl ethanoate", "diethyl ether", "hexane"]),
+            binary: vec![], opt, tscale: 480.0 });
+        v.push(MSpec { name: format!("gcpcsaft/assoc-behind4/opt{}", opt), family: "GcPcSaft", records: gcn(&["pentane", "butanone", "1-butanol", "ethanol"]),
+            binary: vec![], opt, tscale: 480.0 });
         let p3 = json!([{"identifier":{"name":"a"},"molarweight":39.9,"model_record":{"sigma":3.4,"epsilon_k":120.0}},
                         {"identifier":{"name":"b"},"molarweight":83.8,"model_record":{"sigma":3.63,"epsilon_k":165.0}},
                         {"identifier":{"name":"c"},"molarweight":131.3,"model_record":{"sigma":3.96,"epsilon_k":230.0}}]);
